@@ -52,7 +52,7 @@ multisec_regex = re.compile(
 
         \s*
         ({no_num_sec_regex.pattern}     # The word or abbreviation "Section" (optional)
-        (?P<plural_rightmost>s)?
+        (?P<plural_rightmost>s\.?)?    # (plural abbreviation may end in a period: 'Secs.')
         \s*)?
         (?P<secnum_rightmost>\d{{1,3}})  # Rightmost section number (1 to 3 digits)
     )*   # Will go to here for multi-sections
